@@ -354,7 +354,8 @@ def report(p, target, level, ident, fail, order):
     what = "%s -O%s: %s raised %s: %s  [case %s]" % (target, level, "optimize" if fail.stage == "optimize" else "ir_to_object", type(fail.exc).__name__,
                                                       str(fail.exc)[:160].replace("\n", " "), describe(ident)[:300])
     wit = {"target": target, "level": level, "cases": [ident] if single else ident}
-    p.violation(key, what, wit, order=order)
+    # ties between targets sharing a key (riscv / riscv:rvc, 'any') go to the earlier target in TARGETS
+    p.violation(key, what, wit, order=order + TARGETS.index(target) / 10.0)
     p.collect("failing_families_" + FAMILY[target], (ident[0] if not single else ident)["f"])
 
 
